@@ -1,8 +1,9 @@
 """C04 — sorted sets stay ordered; rank, range and score agree (correspondence part)."""
+import bisect
 import itertools
 import vlib
 from checks import apicheck
-from gen_api import fbits
+from gen_api import fbits, hx
 
 
 def small_sequences(depth):
@@ -90,6 +91,435 @@ def bounds_table():
     ops.append("dump")
     return ops
 
+# ---- the pointer skiplist on its own (ds/zset/skiplist.go through the VerifSL hook) ----
+NINF, PINF = float("-inf"), float("inf")
+SL_SCORES = [NINF, -2.5, -1.0, -0.0, 0.0, 1.0, 1.0, 2.0, 2.0, 3.0, 1e300, PINF]
+SL_SORTED = [NINF, -2.5, -1.0, 0.0, 1.0, 2.0, 3.0, 1e300, PINF]
+
+
+def skiplist_stream(rng, n_ops, max_members):
+    """Op lines (`sl ...`, see the protocol of the skiplist tie) for one bare skiplist. A Python-side
+    copy of the list (sorted (score, member) pairs) only steers the generation: preconditions of
+    insert (member absent) hold, removals mostly hit, ranks and ranges are near the ends."""
+    pool = [b"m%03d" % i for i in range(max_members * 2)] + [b"", b"a", b"aa", b"ab", b"aaa", b"b", b"m", b"m0"]
+    cur = []            # sorted [(score, member)]
+    where = {}          # member -> score as inserted (sign of zero kept)
+    ops = ["sl new"]
+
+    def sc():
+        return rng.choice(SL_SCORES)
+
+    def line(*toks):
+        ops.append("sl " + " ".join(str(t) for t in toks))
+
+    def absent():
+        for _ in range(8):
+            m = rng.choice(pool)
+            if m not in where:
+                return m
+        for m in pool:
+            if m not in where:
+                return m
+        return None
+
+    def present():
+        return rng.choice(cur)[1]
+
+    def other_score(s):
+        for _ in range(8):
+            t = sc()
+            if t != s:
+                return t
+        return 7.25
+
+    def drop(lo, hi):            # cur[lo:hi]
+        for _, m in cur[lo:hi]:
+            del where[m]
+        del cur[lo:hi]
+
+    def do_insert():
+        m = absent()
+        if m is None:
+            return do_remove()
+        s = sc()
+        where[m] = s
+        bisect.insort(cur, (s, m))
+        line("insert", hx(m), fbits(s))
+
+    def do_remove():
+        if cur and rng.random() < 0.85:
+            m = present()
+            s = where[m]
+            if s == 0 and rng.random() < 0.3:
+                s = -s                       # the other zero: equal in Go, the removal succeeds
+            i = bisect.bisect_left(cur, (s, m))
+            drop(i, i + 1)
+        elif cur and rng.random() < 0.5:
+            m = present()
+            s = other_score(where[m])
+        else:
+            m = absent() or b"zz"
+            s = sc()
+        line("remove", hx(m), fbits(s))
+
+    def do_getrank():
+        r = rng.random()
+        if cur and r < 0.5:
+            m = present()
+            s = where[m]
+        elif cur and r < 0.75:
+            m = present()
+            s = other_score(where[m])
+        else:
+            m = absent() or b"zz"
+            s = sc()
+        line("getRank", hx(m), fbits(s))
+
+    def do_getbyrank():
+        n = len(cur)
+        r = rng.choice([0, 1, n, n + 1, rng.randint(-1, n + 2), rng.randint(-1, n + 2)])
+        line("getByRank", r)
+
+    def bounds():
+        r = rng.random()
+        if r < 0.45:
+            a = b = rng.choice(SL_SORTED)
+        elif r < 0.75:
+            i = rng.randrange(len(SL_SORTED) - 1)
+            a, b = SL_SORTED[i], SL_SORTED[i + 1]
+        elif r < 0.80:
+            a, b = NINF, PINF
+        else:
+            a, b = sc(), sc()                # includes min > max
+        if a == 0 and rng.random() < 0.5:
+            a = -0.0
+        if b == 0 and rng.random() < 0.5:
+            b = -0.0
+        return a, b
+
+    def do_range_query(name):
+        a, b = (sc(), sc()) if rng.random() < 0.5 else bounds()
+        line(name, fbits(a), fbits(b))
+
+    def sim_remove_range(a, b, limit, mode):
+        i = 0
+        while i < len(cur) and (cur[i][0] <= a if mode & 1 else cur[i][0] < a):
+            i += 1
+        j = i
+        while j < len(cur) and (cur[j][0] < b if mode & 2 else cur[j][0] <= b):
+            j += 1
+            if limit > 0 and j - i == limit:
+                break
+        drop(i, j)
+
+    def do_remove_range(a=None, b=None, limit=None, mode=None):
+        if a is None:
+            a, b = bounds()
+        if limit is None:
+            limit = rng.choice([0, 0, 0, 1, 2, 5, -1])
+        if mode is None:
+            mode = rng.choice([0, 0, 0, 1, 2, 3])
+        sim_remove_range(a, b, limit, mode)
+        line("removeRange", fbits(a), fbits(b), limit, mode)
+
+    def do_remove_rank(start=None, stop=None):
+        n = len(cur)
+        if start is None:
+            k = rng.choice([1, 1, 2, 3])
+            start, stop = rng.choice([
+                (1, k), (n - k + 1, n), (0, 2), (rng.randint(1, n + 1), rng.randint(-1, n)),
+                (n + 1, n + 3), (n, n + 5), (-3, 1), (rng.randint(1, max(1, n)),) * 2,
+            ])
+            if start == stop and rng.random() < 0.5:
+                stop = start + k - 1
+        lo = max(start, 1)
+        if stop >= lo:
+            drop(lo - 1, stop)
+        line("removeRangeByRank", start, stop)
+
+    def burst():
+        # empty the list from both ends, then look at the empty list
+        for _ in range(12):
+            if not cur:
+                break
+            n = len(cur)
+            k = n // 4 + 1
+            r = rng.randrange(4)
+            if r == 0:
+                do_remove_rank(1, k)
+            elif r == 1:
+                do_remove_rank(n - k + 1, n)
+            elif r == 2:
+                do_remove_range(NINF, cur[min(k, n - 1)][0], 0, rng.randrange(4))
+            else:
+                do_remove_range(cur[max(0, n - 1 - k)][0], PINF, 0, rng.randrange(4))
+        if cur:
+            if rng.random() < 0.5:
+                do_remove_range(NINF, PINF, 0, 0)
+            else:
+                do_remove_rank(rng.choice([0, 1]), len(cur) + rng.randrange(3))
+        for f in rng.sample([do_getrank, do_getbyrank, do_remove, lambda: do_range_query("getFirstInRange"),
+                             lambda: do_range_query("getLastInRange"), lambda: do_range_query("hasInRange"),
+                             do_remove_range, do_remove_rank], 4):
+            f()
+        line("dump")
+
+    growing = True
+    target = max_members
+    next_burst = rng.randint(250, 350) + 3 * max_members      # latest; pulled in once the list has grown
+    while len(ops) < n_ops:
+        if len(ops) >= next_burst:
+            burst()
+            growing = True
+            next_burst = len(ops) + rng.randint(250, 350) + 3 * max_members
+            continue
+        n = len(cur)
+        if growing and n >= max_members * 9 // 10:
+            growing = False
+            next_burst = min(next_burst, len(ops) + rng.randint(250, 350))      # churn, then empty it
+        if not growing and rng.random() < 0.01:
+            target = rng.randint(max(1, max_members // 3), max_members)
+        if n >= max_members:
+            w_ins = 0
+        elif growing:
+            w_ins = 120
+        elif n >= target:
+            w_ins = 10
+        else:
+            w_ins = 40
+        narrow = growing or n < max_members // 2
+        acts = [(w_ins, do_insert), (36 if n >= max_members else 18, do_remove), (8, do_getrank), (5, do_getbyrank),
+                (2, lambda: do_range_query("hasInRange")), (4, lambda: do_range_query("getFirstInRange")),
+                (4, lambda: do_range_query("getLastInRange")),
+                (4, (lambda: do_remove_range(limit=rng.choice([1, 1, 2, 5]))) if narrow and rng.random() < 0.7 else do_remove_range),
+                (4, do_remove_rank), (1, lambda: line("dump"))]
+        x = rng.random() * sum(w for w, _ in acts)
+        for w, f in acts:
+            x -= w
+            if x < 0:
+                f()
+                break
+    return ops[:n_ops]
+
+
+def skiplist_corners(rng):
+    """arguments outside what SortedSet passes: NaN bounds / NaN scores in queries and removals, rank 0 and beyond, wrong
+    scores in getRank, limits; on small lists of random heights (the witnesses of FINDINGS.md F-A1..F-A3 are among them)"""
+    nan, pinf, ninf = "7ff8000000000000", fbits(float("inf")), fbits(float("-inf"))
+    pool = [fbits(x) for x in (-1, -0.0, 0.0, 1, 1, 2, 5)] + [pinf, ninf]
+    ops = []
+    for rnd in range(12):
+        ops.append("sl new")
+        ms = [hx(b"m"), hx(b"x"), hx(b""), hx(b"a"), hx(b"ab")][:rng.randrange(1, 6)]
+        for m in ms:
+            ops.append(f"sl insert {m} {rng.choice(pool)}")
+        for a in pool[:4] + [nan, pinf, ninf]:
+            for b in (nan, fbits(1), pinf):
+                ops += [f"sl hasInRange {a} {b}", f"sl getFirstInRange {a} {b}", f"sl getLastInRange {a} {b}", f"sl getLastInRange {b} {a}"]
+        for m in ms + [hx(b"zz")]:
+            for sc in (fbits(5), fbits(-1), nan, fbits(1)):
+                ops.append(f"sl getRank {m} {sc}")
+        for r in range(-1, len(ms) + 3):
+            ops.append(f"sl getByRank {r}")
+        ops += [f"sl removeRange {nan} {fbits(1)} 0 {rnd % 4}", f"sl removeRange {fbits(0)} {nan} 1 {rnd % 4}", f"sl remove {ms[0]} {nan}",
+                f"sl removeRangeByRank 0 0", f"sl removeRangeByRank -5 1", f"sl removeRange {ninf} {nan} -3 0", "sl dump"]
+    return ops
+
+SLZ_QUERIES = True      # the ordered queries (ZRange, ZCount, ZRangeByScore ...) of the slz ops: same condition
+SLZ_ENABLED = True      # the model side of the slz ops (Driver) must exist before these streams run
+
+
+def skiplist_zset_stream(rng, n_ops, max_members):
+    """Op lines (`slz ...`) for one real SortedSet driven through its exported methods; its skiplist
+    is dumped after every mutating call. A Python-side copy only steers the generation."""
+    pool = [b"m%03d" % i for i in range(max_members * 2)] + [b"", b"a", b"aa", b"ab", b"aaa", b"b", b"m", b"m0"]
+    cur = []            # sorted [(score, member)]
+    where = {}          # member -> score
+    ops = ["slz new"]
+
+    def sc():
+        return rng.choice(SL_SCORES)
+
+    def line(*toks):
+        ops.append("slz " + " ".join(str(t) for t in toks))
+
+    def absent():
+        for _ in range(8):
+            m = rng.choice(pool)
+            if m not in where:
+                return m
+        for m in pool:
+            if m not in where:
+                return m
+        return None
+
+    def present():
+        return rng.choice(cur)[1]
+
+    def drop(lo, hi):
+        for _, m in cur[lo:hi]:
+            del where[m]
+        del cur[lo:hi]
+
+    def forget(m):
+        if m in where:
+            i = bisect.bisect_left(cur, (where[m], m))
+            drop(i, i + 1)
+
+    def do_zadd(existing):
+        if existing and cur:
+            m = present()
+            old = where[m]
+            r = rng.random()
+            if r < 0.15:
+                s = old                                  # same score: nothing changes
+            elif r < 0.30 and old == 0:
+                s = -old                                 # the other zero: equal, nothing changes
+            else:
+                s = sc()                                 # remove + insert
+            if s != old:
+                forget(m)
+                where[m] = s
+                bisect.insort(cur, (s, m))
+        else:
+            m = absent()
+            if m is None:
+                return do_zrem()
+            s = sc()
+            where[m] = s
+            bisect.insort(cur, (s, m))
+        line("ZAdd", hx(m), fbits(s))
+
+    def do_zrem():
+        ms = []
+        for _ in range(rng.choice([1, 1, 2, 3])):
+            if cur and rng.random() < 0.75:
+                ms.append(present())
+            else:
+                ms.append(absent() or b"zz")
+        if len(ms) > 1 and rng.random() < 0.15:
+            ms[-1] = ms[0]                               # the same member twice
+        for m in ms:
+            forget(m)
+        line("ZRem", *[hx(m) for m in ms])
+
+    def do_zrank():
+        m = present() if cur and rng.random() < 0.7 else (absent() or b"zz")
+        line("ZRank", hx(m))
+
+    def span(a, b, mode):
+        i = 0
+        while i < len(cur) and (cur[i][0] <= a if mode & 1 else cur[i][0] < a):
+            i += 1
+        j = i
+        while j < len(cur) and (cur[j][0] < b if mode & 2 else cur[j][0] <= b):
+            j += 1
+        return i, j
+
+    def score_bounds():
+        r = rng.random()
+        if r < 0.45:
+            a = b = rng.choice(SL_SORTED)
+        elif r < 0.75:
+            i = rng.randrange(len(SL_SORTED) - 1)
+            a, b = SL_SORTED[i], SL_SORTED[i + 1]
+        elif r < 0.80:
+            a, b = NINF, PINF
+        else:
+            a, b = sc(), sc()
+        if a == 0 and rng.random() < 0.5:
+            a = -0.0
+        if b == 0 and rng.random() < 0.5:
+            b = -0.0
+        return a, b, rng.choice([0, 0, 0, 1, 2, 3])
+
+    def do_byscore(small):
+        a, b, mode = score_bounds()
+        if small:
+            # while the set grows: of a few candidates the one that removes least (but something, if possible)
+            cands = [(a, b, mode)] + [score_bounds() for _ in range(5)]
+            def cost(c):
+                i, j = span(*c)
+                return (j - i == 0, j - i)
+            a, b, mode = min(cands, key=cost)
+        i, j = span(a, b, mode)
+        drop(i, j)
+        line("ZRemRangeByScore", fbits(a), fbits(b), mode)
+
+    def do_byrank():
+        n = len(cur)
+        k = rng.choice([1, 2, 3])
+        start, stop = rng.choice([
+            (0, k - 1), (-k, -1), (0, 1), (-2, -1), (1, 3), (rng.randint(0, n), rng.randint(-1, n)),
+            (n, n + 2), (n - 1, n + 5), (-n - 3, 0), (2, 1), (-1, -2), (rng.randint(0, max(0, n - 1)),) * 2,
+        ])
+        a, b = start, stop
+        if a < 0:
+            a = max(0, n + a)
+        if b < 0:
+            b = n + b
+        if b >= n:
+            b = n - 1
+        if not (a > b or a >= n):
+            drop(a, b + 1)
+        line("ZRemRangeByRank", start, stop)
+
+    def do_query():
+        n = len(cur)
+        r = rng.random()
+        if r < 0.40:
+            # rank windows around both ends; in this code base ranks are 1-based with 0 an alias of 1,
+            # and some windows panic (known finding A-41): the model follows that
+            k = rng.choice([1, 2, 3])
+            start, stop = rng.choice([
+                (0, -1), (0, k), (1, k), (0, 0), (1, 1), (n - k, n), (n, n), (n, n + 3), (n + 1, n + 2), (n + 2, n + 5),
+                (-k, -1), (-1, -1), (-n, -1), (-n - 2, -1), (-3, 2), (2, 1), (3, -5), (0, -n - 1), (k, -k),
+                (rng.randint(-2, n + 2), rng.randint(-n - 2, n + 2)), (rng.randint(0, n + 1), rng.randint(-1, n + 1)),
+            ])
+            line(rng.choice(["ZRange", "ZRevRange"]), start, stop)
+        elif r < 0.60:
+            a, b, mode = score_bounds() if rng.random() < 0.6 else (sc(), sc(), rng.randrange(4))
+            line("ZCount", fbits(a), fbits(b), rng.randrange(4) if rng.random() < 0.5 else mode)
+        else:
+            a, b, mode = score_bounds() if rng.random() < 0.6 else (sc(), sc(), rng.randrange(4))
+            if rng.random() < 0.5:
+                mode = rng.randrange(4)
+            line(rng.choice(["ZRangeByScore", "ZRevRangeByScore"]), fbits(a), fbits(b),
+                 rng.choice([0, 0, 0, 1, 2, 5]), rng.choice([-1, -1, 0, 1, 2, 10]), mode)
+
+    growing = True
+    target = max_members
+    while len(ops) < n_ops:
+        if SLZ_QUERIES and rng.random() < 0.20:
+            do_query()
+            continue
+        n = len(cur)
+        if growing and n >= max_members * 9 // 10:
+            growing = False
+        if not growing and rng.random() < 0.01:
+            target = rng.randint(0, max_members)
+        if not growing and n < max_members // 4 and rng.random() < 0.02:
+            growing = True                               # whole score classes go at once: regrow from time to time
+        room = n < max_members
+        # share of ZAdd on new members: high while growing, low above the drifting target
+        p_new = 0.0 if not room else (0.9 if growing else (0.5 if n < target else 0.15))
+        x = rng.random() * 100
+        if growing and room and x >= 55 and rng.random() < 0.45:
+            x = 0                                        # growing: more ZAdd than in the steady mix
+        if x < 55:
+            do_zadd(existing=rng.random() >= p_new)
+        elif x < 70:
+            do_zrem()
+        elif x < 80:
+            do_zrank()
+        elif x < 88:
+            do_byscore(small=growing and rng.random() < 0.85)
+        elif x < 96:
+            do_byrank()
+        else:
+            line("dump")
+    return ops[:n_ops]
+
 
 def run(ctx, proofs_ok):
     quick = ctx.tier == "quick"
@@ -107,7 +537,27 @@ def run(ctx, proofs_ok):
     if ctx.violations:
         return
     # the command layer (argument text, option words, replies) of the same families over the network protocol
-    vlib.correspond_stream(ctx, vlib.build_harness(ctx), bounds_table(), "bounds", "every by-score command x inclusive / exclusive marks on either bound x bounds exactly on members' scores (network protocol)")
+    h = vlib.build_harness(ctx)
+    # the pointer skiplist on its own against Model/Skiplist: the structure itself, not only the answers
+    sizes = [200, 60, 12, 200] if quick else [200, 60, 12, 200, 30, 5, 400, 100, 12, 60, 200, 2]
+    for i, mm in enumerate(sizes):
+        ops = skiplist_stream(ctx.rng, 900 if quick else 4000, mm)
+        if vlib.correspond_stream(ctx, h, ops, f"skiplist-{i}", "pointer skiplist: whole-structure comparison after every operation (levels, spans, backward, tail) against Model/Skiplist"):
+            break
+    if ctx.violations:
+        return
+    vlib.correspond_stream(ctx, h, skiplist_corners(ctx.rng), "skiplist-corners", "pointer skiplist outside the sorted set's preconditions: NaN bounds and scores, rank 0, wrong scores, limits (witnesses of the work-package findings F-A1..F-A3)")
+    if ctx.violations:
+        return
+    if SLZ_ENABLED:
+        sizes = [150, 20] if quick else [150, 20, 400, 5, 60, 150]
+        for i, mm in enumerate(sizes):
+            ops = skiplist_zset_stream(ctx.rng, 900 if quick else 4000, mm)
+            if vlib.correspond_stream(ctx, h, ops, f"skiplist-zset-{i}", "pointer skiplist under the real SortedSet methods (ZAdd/ZRem/ZRemRangeBy…): whole-structure comparison against the pointer-level sorted-set model"):
+                break
+        if ctx.violations:
+            return
+    vlib.correspond_stream(ctx, h, bounds_table(), "bounds", "every by-score command x inclusive / exclusive marks on either bound x bounds exactly on members' scores (network protocol)")
     if ctx.violations:
         return
     apicheck.run_resp_streams(ctx, [
